@@ -16,7 +16,8 @@ from mc import tsmodel as tm
 PROPERTY = 'C08'
 ASSUMPTIONS = [
     'operands: Series with Series / scalar, 2-column frames with frames / scalar; a Series mixed with a multi-column frame is not claimed',
-    'float inputs only; result dtype, Series name and column order are not checked; fill method is None (C03 covers filling)',
+    'float inputs only; result dtype, Series name and column order are not checked; a fill method (ffill / the constant 0) is only exercised for div_ and add_ on pairs of Series '
+    '(C03 covers filling itself): the operands are filled on the common index first, then the pointwise operation applies',
     "column policy 'oj' (missing column = neutral element) is claimed for add_/sub_/mul_/div_ only; frames with disjoint column sets under 'ij' are excluded",
     'pointwise reference = numpy float64 scalar semantics (NaN**0 == 1, comparisons with NaN False, minimum/maximum propagate NaN); div_: divisor 0 -> NaN',
 ]
@@ -141,6 +142,26 @@ def check_pair(case):
                 out.viol('div-inf', 'div_(%s, join=%s) contains inf: %s' % (desc, how, list(res.values)), **sig)
             if not (a.equals(sa) and b.equals(sb)):
                 out.viol('operand-mutated', '%s_(%s) changed an operand' % (op, desc), **sig)
+            if op in ('div', 'add'):
+                # a fill method on the alignment (C03's as-of fill / a constant) comes BEFORE the operation: zeros the fill creates or carries forward
+                # are divisors like any other (NaN, never inf), zeros in the data are not holes to be filled
+                for method in ('ffill', 0):
+                    out.sub()
+                    try:
+                        rm = opfun(op)(tm.build_series(ma), tm.build_series(mb), join=how, method=method)
+                        out.call()
+                    except Exception as e:
+                        out.viol('raised', '%s_(%s, join=%s, method=%r) raised %s: %s' % (op, desc, how, method, type(e).__name__, e), exc=type(e).__name__, method=str(method), **sig)
+                        continue
+                    days = tm.common_days([set(ma), set(mb)], how)
+                    if method == 0:
+                        al = [{d: (0.0 if m.get(d) is None else m[d]) for d in days} for m in (ma, mb)]
+                    else:
+                        al = [tm.align(m, days, 'ffill') for m in (ma, mb)]
+                    expm = {d: npop(op, al[0][d], al[1][d]) for d in days}
+                    pm = result_problem(rm, expm, '%s_(%s, join=%s, method=%r)' % (op, desc, how, method))
+                    if pm:
+                        out.viol('wrong-value', pm, method=str(method), **sig)
             if op in ('add', 'sub', 'max'):
                 # the same operands on indexes built by pd.date_range (they carry a freq; two regular grids may be shifted against each other)
                 try:
